@@ -14,7 +14,10 @@ RULE = ("lint-clean circuits (0-10 startpoints, blackbox pins, constants, some c
 PROBES = ["count_0", "count_full", "count_partial", "assume_internal", "bb_startpoint", "dimacs>8KiB", "cyclic",
           "cyclic_no_stable", "cyclic_multi_stable", "sigprob", "contradictory", "explicit_sampling_set"]
 ASSUMPTIONS = ["<= 10 startpoints (12 in a few runs), only the default plain-clause DIMACS mode is judged",
-               "the value approx_model_count returns is recorded as a probe, not judged"]
+               "the value approx_model_count returns is recorded as a probe, not judged",
+               "signal_probability is judged for nodes whose cone is free of blackbox pins: for other nodes the library "
+               "raises NotImplementedError (tx.subcircuit does not support blackboxes), a declared limitation that is "
+               "neither judged nor counted as held"]
 
 
 def gen(rng, tier):
@@ -160,7 +163,7 @@ def run(case, ctx):
             ret = ctx.call("C08.approx_raises", sig0, cg.sat.approx_model_count, c, dict(A))
         calls = ctx.peer.approxmc_calls
         ctx.stats["approx_calls"] += 1
-        n_lib_calls = 2 if getattr(ctx, "twice", False) else 1     # the history seam repeats the library call
+        n_lib_calls = 1 + bool(getattr(ctx, "twice", False)) + bool(getattr(ctx, "stale", False))   # history seams repeat the call
         if len(calls) != n_lib_calls:
             ctx.violate("C08.approx_calls", f"approxmc was run {len(calls)} times for {n_lib_calls} library call(s)", sig0)
         rec = calls[-1]
